@@ -144,11 +144,19 @@ struct olc_harness final : harness {
   std::string gen_program(std::uint64_t seed, std::uint64_t index, verif::stats* st) override {
     vrng r(verif::hash_combine(seed, index));
     const bool scans = prop == "C09" || (prop == "C04" && r.chance(1, 3)) || (prop == "C14" && r.chance(1, 3));
-    const bool pairs = shape == "pairs";
+    // "nested": minimal pairs in which one thread changes the focus node structurally and the other its
+    // direct parent (both at a size-class boundary)
+    const bool nested_shape = shape == "nested";
+    const bool pairs = shape == "pairs" || nested_shape;
     const unsigned T = pairs ? 2 : (r.chance(3, 5) ? 2 : 3);
     static const unsigned fans[] = {1, 2, 2, 2, 3, 4, 4, 5, 5, 16, 17, 48, 49};
     unsigned fan = fans[(index % 13 + r.below(2)) % 13];
-    const unsigned depth = static_cast<unsigned>(r.below(3));   // inner levels above the focus node
+    if (nested_shape) {
+      static const unsigned nfans[] = {4, 16, 48, 4, 16, 5, 17, 49, 2};
+      fan = nfans[r.below(sizeof nfans / sizeof nfans[0])];
+    }
+    unsigned depth = static_cast<unsigned>(r.below(3));   // inner levels above the focus node
+    if (nested_shape && depth == 0) depth = 1;
     const unsigned plen = static_cast<unsigned>(r.below(4));    // compressed path inside
     // key layout: [top bytes (depth levels)] [prefix plen bytes] [focus byte] [tail...]
     std::string base(8, '\0');
@@ -185,9 +193,13 @@ struct olc_harness final : harness {
           if (r.chance(2, 3)) init.insert(k);
         }
     }
+    // nested boundary (decided here, used below): the DIRECT parent of the focus node branches at byte ppos
+    const bool nested = fpos >= 1 && (nested_shape || r.chance(1, 3));
+    const unsigned ppos = !nested ? 0 : (r.chance(1, 2) ? fpos - 1 : static_cast<unsigned>(r.below(fpos)));
     // sibling branches above the focus node (diverge inside the prefix / at upper levels)
     for (unsigned lvl = 0; lvl < fpos && lvl < 3; ++lvl) {
       if (!r.chance(2, 3)) continue;
+      if (nested && lvl >= ppos) continue;  // keep the parent's fan-out exact and the parent direct
       std::string k = base;
       k[lvl] = static_cast<char>(static_cast<unsigned char>(k[lvl]) ^ (1 + r.below(255)));
       uni.insert(k);
@@ -203,10 +215,10 @@ struct olc_harness final : harness {
     // boundary (the focus subtree plus pf-1 leaves under it), with absent siblings at that level, so that
     // a structural change of the parent can race with a structural change of the focus node
     std::vector<std::string> parent_present, parent_absent;
-    if (fpos >= 1 && r.chance(1, 3)) {
+    unsigned pf = 0;
+    if (nested) {
       static const unsigned pfans[] = {2, 3, 4, 4, 5, 16, 17};
-      const unsigned pf = pfans[r.below(sizeof pfans / sizeof pfans[0])];
-      const unsigned ppos = static_cast<unsigned>(r.below(fpos));  // the parent branches at this byte position
+      pf = pfans[r.below(sizeof pfans / sizeof pfans[0])];
       std::set<unsigned> pb;
       while (pb.size() < pf + 1) {
         const unsigned b = static_cast<unsigned>(r.below(256));
@@ -250,6 +262,15 @@ struct olc_harness final : harness {
           if (sk == 0) l += "scan " + std::to_string(r.below(2)) + " " + std::to_string(halt);
           else if (sk <= 2) l += "scanfrom " + to_hex(r.pick(U)) + " " + std::to_string(r.below(2)) + " " + std::to_string(halt);
           else l += "scanrange " + to_hex(r.pick(U)) + " " + to_hex(r.pick(U)) + " " + std::to_string(halt);
+        } else if (nested_shape && !parent_present.empty() && r.chance(4, 5)) {
+          // t0: structural change of the focus node; t1: structural change of its parent
+          if (t == 0) {
+            if ((fan == 4 || fan == 16 || fan == 48) && !absent_children.empty()) l += "ins " + to_hex(r.pick(absent_children)) + " " + std::to_string(vseed++);
+            else l += "rem " + to_hex(r.pick(present_children));
+          } else {
+            if ((pf == 4 || pf == 16) && !parent_absent.empty()) l += "ins " + to_hex(r.pick(parent_absent)) + " " + std::to_string(vseed++);
+            else l += "rem " + to_hex(r.pick(parent_present));
+          }
         } else {
           const unsigned w = static_cast<unsigned>(r.below(10));
           if (w < 3) {
